@@ -24,7 +24,12 @@ func vh_sentinelUnchanged(before, after []m.Entry) bool {
 	for i := range before {
 		b, a := before[i], after[i]
 		ok = v.And(ok, a.Path == b.Path, a.Kind == b.Kind, a.Perm == b.Perm, a.Uid == b.Uid, a.Gid == b.Gid, a.Mtime == b.Mtime,
-			string(a.Data) == string(b.Data), a.Target == b.Target, a.Nlink == b.Nlink)
+			string(a.Data) == string(b.Data), a.Target == b.Target, a.Nlink == b.Nlink, len(a.XKeys) == len(b.XKeys))
+		for j := range b.XKeys {
+			if j < len(a.XKeys) {
+				ok = v.And(ok, a.XKeys[j] == b.XKeys[j], string(a.XVals[j]) == string(b.XVals[j]))
+			}
+		}
 	}
 	return ok
 }
@@ -84,7 +89,8 @@ func VH_C03_hostile() {
 			v.Cover("unrequested-data")
 			break
 		}
-		hp, hl := vh_hostilePaths, vh_hostileLinks
+		hp, hl := vh_hostilePaths, append([]string(nil), vh_hostileLinks...)
+		hl[3] = out + "/secret" // the absolute path of the outside file (natively below the scratch directory)
 		if v.Param("R", 0) != 0 {
 			hp, hl = vh_hostilePathsR, vh_hostileLinksR
 		}
@@ -101,6 +107,10 @@ func VH_C03_hostile() {
 			mode = v.U32("mode")
 		}
 		st := &types.Stat{Path: p, Mode: mode, Linkname: link, Uid: 9, Gid: 9, ModTime: vh_mtimes()[0]}
+		if v.Bool("xattr") {
+			// extended attributes on any kind of entry (on a symlink they must not reach its target)
+			st.Xattrs = map[string][]byte{"user.h": []byte("1")}
+		}
 		fm := os.FileMode(mode)
 		ok := spec.accept(p, fm.IsDir(), false)
 		// an entry the receiver turns into a hard link: not a directory / device / fifo / symlink, with a link name
